@@ -52,6 +52,8 @@ type SimReader struct {
 	calls int
 	k     int // index into plan.Chunks
 	tailN int // 0 = full
+	tailZ bool // tail policy "zk<N>": every data read is preceded by one (0,nil)
+	zNext bool
 
 	budget int
 	sched  Yielder
@@ -99,6 +101,11 @@ func NewSimReader(m []byte, plan ReadPlan, sched Yielder, task int) *SimReader {
 		}
 	}
 	r.tailN = parseTail(plan.Tail)
+	if len(plan.Tail) > 1 && plan.Tail[0] == 'z' {
+		r.tailZ = true
+		r.tailN = parseTail(plan.Tail[1:])
+		r.zNext = true
+	}
 	nst := 0
 	for _, c := range plan.Chunks {
 		if c == 0 {
@@ -106,6 +113,9 @@ func NewSimReader(m []byte, plan ReadPlan, sched Yielder, task int) *SimReader {
 		}
 	}
 	r.budget = 4*len(m) + 64 + nst
+	if r.tailZ {
+		r.budget += 2*len(m) + 64 // one stutter per delivered chunk at most
+	}
 	r.hash = 0xcbf29ce484222325
 	return r
 }
@@ -177,8 +187,18 @@ func (r *SimReader) read(p []byte) (int, error) {
 		if c < k {
 			k = c
 		}
-	} else if r.tailN > 0 && r.tailN < k {
-		k = r.tailN
+	} else {
+		if r.tailZ {
+			if r.zNext {
+				r.zNext = false
+				r.stutters++
+				return 0, nil
+			}
+			r.zNext = true
+		}
+		if r.tailN > 0 && r.tailN < k {
+			k = r.tailN
+		}
 	}
 	if k > lim-r.pos {
 		k = lim - r.pos
